@@ -5,12 +5,12 @@ from . import core, tv
 
 
 def run_property(pid, cases, tier, chunk=30, title='', bounds=None, cfg=None, extra_evidence=None, level='translation_validation',
-                 assumptions=None, post=None, z3_timeout_ms=30000, minify=False, keep_all_too=False):
+                 assumptions=None, post=None, z3_timeout_ms=30000, minify=False, keep_all_too=False, heavy=None):
     t0 = time.time()
     work = os.path.join(core.scratch(), pid)
     os.makedirs(work, exist_ok=True)
     known = core.load_known(pid)
-    rep = tv.check_cases(cases, work, chunk=chunk, cfg=cfg, known=known, z3_timeout_ms=z3_timeout_ms, minify=minify)
+    rep = tv.check_cases(cases, work, chunk=chunk, cfg=cfg, known=known, z3_timeout_ms=z3_timeout_ms, minify=minify, heavy=heavy)
     variant_verified = None
     if keep_all_too:
         # second pass: the same programs linked with every declaration kept alive (dead-code elimination switched off);
@@ -121,6 +121,9 @@ def run_property(pid, cases, tier, chunk=30, title='', bounds=None, cfg=None, ex
         core.write_evidence(pid, ev)
     print('%s %s: %d cases, %d verified for all inputs, %d inconclusive, %d violations, %d known-finding hits, %d spurious; %d paths, %.1fs' % (
         pid, tier, rep.cases, n_verified, ev['coverage']['cases_inconclusive'], violations, len(rep.known_hits), len(spurious), rep.paths, time.time() - t0))
+    slow = sorted(rep.case_times, reverse=True)[:8]
+    if slow and slow[0][0] > 20:
+        print('  slowest comparisons (s): %s' % ', '.join('%s %.0f' % (t, s_) for s_, t in slow))
     for sp in spurious[:5]:
         print('  spurious (solver model did not reproduce on go vs gopherjs+node): %s %s go=%s js=%s' % (sp.get('tag'), json.dumps(sp.get('model')), sp.get('go'), sp.get('js') or sp.get('replay_error')))
     if getattr(rep, 'solver_errors', None):
